@@ -754,7 +754,7 @@ def c14_growth(tier, seed):
             res['sigs'][p] = sorted(set(res['sigs'][p]) | set(sg))
         for p, n in r['nlines'].items():
             res['nlines'][p] = res['nlines'].get(p, 0) + n
-        res['violations'] += r['violations']
+        res['violations'] += [dict(v, drvconf=r.get('drvconf'), fmode=r.get('fmode', 0)) for v in r['violations']]
     return res
 
 
